@@ -79,5 +79,15 @@ def encircled_energy(data,
     if eeDiameter is False:
         return xi, yi
     else:
-        ee50d = float(xi[numpy.argmin(numpy.abs(yi - fraction))])
+        above = numpy.nonzero(yi >= fraction)[0]
+        if len(above) == 0:
+            # the curve never reaches the fraction: closest point
+            idx = numpy.argmin(numpy.abs(yi - fraction))
+        else:
+            # first crossing of the fraction, not the closest value anywhere on
+            # the curve (which picks the start of a flat part before a steep rise)
+            idx = above[0]
+            if idx > 0 and abs(yi[idx - 1] - fraction) < abs(yi[idx] - fraction):
+                idx -= 1
+        ee50d = float(xi[idx])
         return ee50d
